@@ -55,7 +55,7 @@ Section DryErr.
     { intros n d. unfold step1. destruct (excluded od n); [reflexivity|].
       destruct (alookup n sdir) as [[c m|es]|]; try reflexivity.
       - unfold copy_file. simpl. rewrite H3. reflexivity.
-      - destruct (o_recursive od); [|reflexivity]. unfold copy_tree. simpl. rewrite H4. reflexivity. }
+      - destruct (o_recursive od); [|reflexivity]. unfold copy_tree, copy_tree_gen. simpl. rewrite H4. reflexivity. }
     assert (R1 : forall n d, snd (step1 cf orl sdir n d) = None)
       by (intros; apply step1_real_ok; reflexivity).
     rewrite (run_steps_fix _ (step1 cf od sdir) L1 ddir) by (intros; apply D1).
@@ -284,7 +284,7 @@ Section DrySync.
       match goal with |- snd (let '(_, _) := ?A in _) = snd (let '(_, _) := ?B in _) =>
         assert (J' : snd A = snd B) by exact J; destruct A as [x1 y1]; destruct B as [x2 y2]; exact J'
       end.
-    - unfold copy_tree. cbn [o_dry_run set_dry]. rewrite H4. reflexivity.
+    - unfold copy_tree, copy_tree_gen. cbn [o_dry_run set_dry]. rewrite H4. reflexivity.
   Qed.
 
   (* C15: a project-level dry run ends with the exception class of the real run *)
